@@ -185,7 +185,7 @@ def generate(rng, ctx):
             steps.append(["exit", o])
     return {"where": where, "init": init, "nobj": nobj, "steps": steps,
             # how the key file is named to the library: absolute, or relative to the home directory
-            "pathform": rng.choice(["abs", "abs", "home", "symlink-dotdot"]) if where == "ok" else "abs",
+            "pathform": rng.choice(["abs", "abs", "home", "symlink-dotdot", "link"]) if where == "ok" else "abs",
             # file names with characters that mean something to string formatting, shells, URLs
             "fname": rng.choice(["app.key", "app.key", "app%20key.bin", "100%.key", "k%s.key", "key {0}.bin", "cl\u00e9.key", "a b.key",
                                 "app-$VFSTAGE.key", "${VFSTAGE}.key"]),
@@ -228,7 +228,7 @@ def _generate_config_case(rng, ctx):
             steps.append(["file", st])
     steps.append(["dump", via(), text()])
     return {"where": "config", "init": init, "nobj": 1, "steps": steps, "method": rng.choice(["xor", "xor", "aes", "best"]),
-            "nested": rng.random() < 0.4, "pathform": rng.choice(["abs", "abs", "home", "symlink-dotdot"]),
+            "nested": rng.random() < 0.4, "pathform": rng.choice(["abs", "abs", "home", "symlink-dotdot", "link"]),
             "fname": rng.choice(["app.key", "app.key", "100%.key", "key {0}.bin", "a b.key"]), "pathtype": rng.choice(PATHTYPES)}
 
 
@@ -488,6 +488,14 @@ def run(case, ctx, res):
         path = os.path.join(store, fname)
         given = os.path.join(ctx.dir, "app", "current", "..", "..", fname)
         res.count("key_file_named_through_symlink_and_dotdot")
+    elif where == "ok" and case.get("pathform") == "link":
+        # the key file is named through a symbolic link to where the key is kept; while the key is absent the link dangles,
+        # and the key that is then made lands where the link points (as for any program that opens the name for writing)
+        os.makedirs(os.path.join(ctx.dir, "keys"), exist_ok=True)
+        path = os.path.join(ctx.dir, "keys", fname)
+        given = os.path.join(ctx.dir, "link-" + fname)
+        os.symlink(path, given)
+        res.count("key_file_named_through_a_link_to_the_key")
     elif where == "ok":
         path = os.path.join(ctx.dir, fname)
     elif where == "parent_missing":
